@@ -48,6 +48,7 @@ class Cell:
         self.unwindset = attrs.get("unwindset", "")
         self.extra = attrs.get("extra", "")         # extra seed group etc.
         self.expect_unsat_covers = int(attrs.get("unsat_covers", "0"))
+        self.ignore_re = attrs.get("ignore_re", "")   # engine artefacts (documented per cell) matched on "function|description"
         self.desc = desc
         self.reach = attrs.get("reach", "0") == "1"   # assertion reachability checks (3-4x slower) on/off
         self.needs = []
@@ -244,7 +245,7 @@ def run_cell(scratch, cell, extra_cbmc=None, tag=""):
     res = {"cell": cell.name, "harness": cell.harness, "wall_s": round(dt, 2), "rc": rc,
            "timed_out": timed_out, "log": str(log), "kind": cell.kind, "tier": cell.tier,
            "desc": cell.desc, "cls": cell.cls}
-    res.update(parse_result(js, log, timed_out))
+    res.update(parse_result(js, log, timed_out, cell.ignore_re))
     # an expected number of unsatisfiable covers may be declared (none by default)
     if res["verdict"] == "PASS" and len(res["covers_unsat"]) > cell.expect_unsat_covers:
         res["verdict"] = "VACUOUS"
@@ -259,7 +260,7 @@ def _is_repo_file(path):
     return path.startswith("src/") or "/divan/src/" in path
 
 
-def parse_result(js, log, timed_out):
+def parse_result(js, log, timed_out, ignore_re=""):
     out = {"verdict": "INCONCLUSIVE", "reason": "", "checks_total": 0, "checks_passed": 0,
            "checks_unreachable": 0, "failures": [], "unwind_failures": [], "covers_sat": [],
            "covers_unsat": [], "functions": [], "stubs": [], "cbmc_stats": {}, "harness_asserts": 0}
@@ -316,6 +317,9 @@ def parse_result(js, log, timed_out):
             out["checks_unreachable"] += 1
         elif st == "Failure":
             rec = {"function": c.get("function", ""), "description": desc, "where": where, "category": cat}
+            if ignore_re and re.search(ignore_re, rec["function"] + "|" + desc):
+                out.setdefault("ignored", []).append(rec)
+                continue
             if desc.startswith("unwinding assertion") or "recursion unwinding assertion" in desc:
                 out["unwind_failures"].append(rec)
             elif cat == "unsupported_construct" or "is not currently supported by Kani" in desc:
@@ -341,8 +345,10 @@ def parse_result(js, log, timed_out):
     elif out["unwind_failures"]:
         out["verdict"] = "UNWIND"
         out["reason"] = "unwinding assertion failed (bound too small): " + out["unwind_failures"][0]["function"]
-    elif r.get("status") == "Success":
+    elif r.get("status") == "Success" or out.get("ignored"):
         out["verdict"] = "PASS"
+        if out.get("ignored"):
+            out["reason"] = f"{len(out['ignored'])} engine-artefact check(s) ignored by the cell's documented rule"
     else:
         out["reason"] = "kani status " + str(r.get("status"))
     return out
